@@ -987,13 +987,41 @@ async fn run_case(rcs: &mut [Rc], srv: &Srv, host: &Handle, st: &Arc<State>, cx:
             let mut alive = true;
             let mut dropped = 0;
             for (ci, rc) in rcs.iter_mut().enumerate() {
+                // QUIET FIRST: nothing more is sent to this peer until the deliverable broadcasts of the burst have arrived (or a
+                // generous window has passed). A message within the limit that shows up only after LATER traffic was sitting in
+                // a write buffer: it was not delivered by the send that queued it.
+                let deliverable: Vec<&Exp> = exps.iter().filter(|e| e.notify && e.queued && e.size <= limit).collect();
+                let mut early: Vec<Vec<u8>> = vec![];
+                let quiet_dl = Instant::now() + Duration::from_secs(4);
+                while early.iter().filter(|f| deliverable.iter().any(|e| e.want == **f)).count() < deliverable.len() {
+                    match rc.recv(quiet_dl).await {
+                        Got::Frame(b) => {
+                            cx.observe(b.len(), "frame before the follow-up call");
+                            early.push(b);
+                        }
+                        _ => break,
+                    }
+                }
+                let missing_before_ping: Vec<String> = deliverable.iter().filter(|e| !early.iter().any(|f| *f == e.want)).map(|e| format!("{} ({} bytes)", e.label, e.size)).collect();
                 let (pid, ptok, pf) = ping_frame(rc);
                 if let Err(e) = rc.send(pf).await {
                     cx.viol(format!("C17:connection-lost:{p}"), format!("peer {ci}: cannot write the follow-up call: {e}"));
                     alive = false;
                     continue;
                 }
-                let (got, err) = collect(rc, cx, HashSet::from([pid])).await;
+                let (late, err) = collect(rc, cx, HashSet::from([pid])).await;
+                if !missing_before_ping.is_empty() {
+                    let arrived_late = deliverable.iter().filter(|e| !early.iter().any(|f| *f == e.want) && late.iter().any(|f| *f == e.want)).count();
+                    if arrived_late > 0 && cx.hb.max_gap_ms() < 1000 {
+                        cx.viol(format!("C17:deliverable-message-held-back:{p}"), format!("peer {ci}: {arrived_late} broadcast(s) within the limit ({}) had not arrived 4 s after the burst and arrived only after the peer's next request was answered: they were queued but not flushed", missing_before_ping.join(", ")));
+                    } else if arrived_late > 0 {
+                        cx.acc.inconcl.push("a deliverable broadcast arrived late but the machine stalled".into());
+                    }
+                } else {
+                    cx.acc.count("deliverable_broadcasts_arrived_before_any_later_traffic", deliverable.len() as u64);
+                }
+                let mut got = early;
+                got.extend(late);
                 if let Some(e) = &err {
                     alive = false;
                     if e.starts_with("connection ended") {
